@@ -29,16 +29,17 @@ PID = "C11"
 TIERS = {
     "quick": dict(
         exhaustive=[("pcd", 5), ("cd", 6), ("pd", 7), ("pc", 6)],
-        len2=["cd"], len3=["cd", "pc"], len4=[], len4_cap=0,
+        len2=["cd"], len3=["cd", "pc"], len3_cap=200, len4=[], len4_cap=0,
         sim_names=[["pcd", "ccp", "ddc", "ppd", "pcd2", "cdd"]], sim_len=12, sim_gen=700, sim_keep=170,
         variant_level=4, saver_epochs=(2,)),
     "thorough": dict(
         exhaustive=[("pcd", 7), ("ccp", 6), ("ddc", 6), ("ppd", 7), ("pcd2", 6), ("cdd", 6),
                     ("pc", 9), ("cc", 7), ("dd", 7), ("cd", 8), ("pd", 10)],
-        len2=["pcd", "ccp", "ddc", "ppd", "pcd2", "cdd", "pc", "cc", "dd", "cd", "pd"],
-        len3=["pcd", "ccp", "ddc", "ppd", "pcd2", "cdd", "pc", "cc", "dd", "cd", "pd"], len4=["cd", "pd"], len4_cap=1500,
+        len2=["pcd", "ddc", "pc", "cc", "dd", "cd", "pd"],
+        len3=["pcd", "ccp", "ddc", "ppd", "pcd2", "cdd", "pc", "cc", "dd", "cd", "pd"], len3_cap=250,
+        len4=["cd", "pd"], len4_cap=600,
         sim_names=[["pcd", "ccp", "ddc", "ppd", "pcd2", "cdd"], ["pc", "cc", "dd", "cd", "pd"]],
-        sim_len=14, sim_gen=5000, sim_keep=900,
+        sim_len=14, sim_gen=4000, sim_keep=500,
         variant_level=5, saver_epochs=(2, 3)),
 }
 
@@ -187,9 +188,10 @@ def run(tier, seed):
             behs += [("len2", b) for b in r.exports]
         for name in cfg["len3"]:
             r = pm.behaviours([name], 3, only=pm.EFFECTIVE_LOAD)
-            chk.add_tlc(r, "export: every behaviour of 3 calls ending in a load/autoload that changes the model, setup %s (%d)"
-                        % (name, len(r.exports)))
-            behs += [("len3", b) for b in r.exports]
+            sel = r.exports if len(r.exports) <= cfg["len3_cap"] else rng.sample(r.exports, cfg["len3_cap"])
+            chk.add_tlc(r, "export: every behaviour of 3 calls ending in a load/autoload that changes the model, setup %s "
+                           "(%d, %d replayed)" % (name, len(r.exports), len(sel)))
+            behs += [("len3", b) for b in sel]
         for name in cfg["len4"]:
             r = pm.behaviours([name], 4, only=pm.EFFECTIVE_LOAD)
             sel = r.exports if len(r.exports) <= cfg["len4_cap"] else rng.sample(r.exports, cfg["len4_cap"])
